@@ -31,6 +31,7 @@ type h1Run struct {
 	Result *run.Result
 	// values read from the result after Do returned
 	HaveResult bool
+	HaveCounts bool // counts taken from the structured summary record (drivers without a result object)
 	Snap       struct{ Succ, Fail, Drop uint64 }
 	SnapFull   any
 	Failed     bool
@@ -280,7 +281,16 @@ func h1OneRun(env *Env, c *H1Cfg, st *h1State, runIdx int) {
 			hr.HaveResult = true
 		}()
 	}
+	if !hr.HaveResult && c.Driver != "api" && g.DoPanic == "" {
+		if sc, ok := summaryCounts(rec); ok {
+			hr.Snap.Succ, hr.Snap.Fail, hr.Snap.Drop, hr.HaveCounts = sc[1], sc[2], sc[3], true
+		}
+	}
 	hr.Gathered, hr.GatherErr = gather(st.Metrics)
+	if c.Driver == "f1" {
+		// the public entry point runs on the process-wide metrics instance (reset at the start of every run)
+		hr.Gathered, hr.GatherErr = gather(metrics.Instance())
+	}
 	// drain: let whatever is still running show itself (late progress lines, late iterations)
 	rec.markSeq = g.DoReturnedSeq
 	nLogs := 0
